@@ -265,6 +265,54 @@ pub fn run(ctx: &Ctx, rep: &mut Report) {
                 }
             }
         }
+        // the same stack loaded from files, the user dictionaries added one by one with ConfigBuilder::user_dict():
+        // every indexed key of every layer is found under that layer's number
+        if !small && size_class < 2 && world.users.len() >= 2 && world.users.len() <= 6 && wi % 2 == 1 {
+            use sudachi::config::ConfigBuilder;
+            use sudachi::dic::dictionary::JapaneseDictionary;
+            world.res.write_bytes("system.dic", &world.sys_bytes);
+            let mut cfgj = world.cfg_json.clone();
+            cfgj["systemDict"] = json!(world.res.path.join("system.dic").to_string_lossy().to_string());
+            let loaded = guard(|| {
+                let mut b = ConfigBuilder::from_bytes(&serde_json::to_vec(&cfgj).unwrap()).map_err(|e| format!("{:?}", e))?.resource_path(world.res.path.clone());
+                for (i, u) in world.user_bytes.iter().enumerate() {
+                    let name = format!("user{}.dic", i);
+                    world.res.write_bytes(&name, u);
+                    b = b.user_dict(world.res.path.join(&name));
+                }
+                JapaneseDictionary::from_cfg(&b.build()).map_err(|e| format!("{:?}", e))
+            });
+            let scen = || json!({"world_index": wi, "loaded": "from files, user dictionaries added with ConfigBuilder::user_dict()", "world": world.describe(true)});
+            match loaded {
+                Ok(Ok(d2)) => {
+                    rep.count("stacks_loaded_from_files", 1);
+                    let lex2 = d2.lexicon();
+                    'outer: for (key, rows) in model.iter() {
+                        rep.eval();
+                        let got = guard(|| {
+                            let mut v: Vec<(u8, u32)> = lex2.lookup(key, 0).filter(|e| e.end == key.len()).map(|e| (e.word_id.dic(), e.word_id.word())).collect();
+                            v.sort();
+                            v
+                        });
+                        let mut exp = rows.clone();
+                        exp.sort();
+                        match got {
+                            Ok(g) if g == exp => rep.count("file_based_keys_checked", 1),
+                            Ok(g) => {
+                                rep.violation("lookup_mismatch", "LexiconSet::lookup", &format!("stack loaded from files: key {:?} expected {:?}, got {:?}", String::from_utf8_lossy(key), exp, g), "", scen());
+                                break 'outer;
+                            }
+                            Err(p) => {
+                                rep.violation("lookup_panic", &p.site, &p.msg, "", scen());
+                                break 'outer;
+                            }
+                        }
+                    }
+                }
+                Ok(Err(e)) => rep.violation("lookup_mismatch", "JapaneseDictionary::from_cfg", &format!("the stack loads from memory but not from files: {}", clip(&e, 200)), "", scen()),
+                Err(p) => rep.violation("lookup_panic", &p.site, &p.msg, "", scen()),
+            }
+        }
         let oob_after = sudachi::verif::counters();
         rep.count("trie_accesses_seen_by_hook", oob_after[2] - oob_before[2]);
         rep.count("word_id_table_accesses_seen_by_hook", oob_after[4] - oob_before[4]);
